@@ -374,3 +374,132 @@ pub(crate) fn construct_reset_key(private_key: &[u8; 32]) -> ring::hmac::Key {
 
     ring::hmac::Key::new(ring::hmac::HMAC_SHA256, &reset_key)
 }
+
+/// Thin public wrappers around the crate-private verifiers, for the external verification harness.
+#[cfg(bmwill_anemo_verif)]
+pub mod verif_hooks {
+    use super::*;
+
+    /// Which of the three verifier implementations to exercise.
+    #[derive(Clone, Copy, Debug, PartialEq, Eq)]
+    pub enum Verifier {
+        /// `impl ClientCertVerifier for CertVerifier`
+        Client,
+        /// `impl ServerCertVerifier for CertVerifier`
+        Server,
+        /// `impl ServerCertVerifier for ExpectedCertVerifier`
+        ExpectedServer(PeerId),
+    }
+
+    fn cert_verifier(server_names: &[String]) -> CertVerifier {
+        CertVerifier {
+            server_names: server_names.to_vec(),
+        }
+    }
+
+    fn ders(intermediates: &[Vec<u8>]) -> Vec<CertificateDer<'static>> {
+        intermediates
+            .iter()
+            .map(|der| CertificateDer::from(der.clone()))
+            .collect()
+    }
+
+    pub fn verify_client_cert(
+        server_names: &[String],
+        end_entity: &[u8],
+        intermediates: &[Vec<u8>],
+        now_unix_secs: u64,
+    ) -> Result<(), rustls::Error> {
+        let end_entity = CertificateDer::from(end_entity.to_vec());
+        ClientCertVerifier::verify_client_cert(
+            &cert_verifier(server_names),
+            &end_entity,
+            &ders(intermediates),
+            UnixTime::since_unix_epoch(std::time::Duration::from_secs(now_unix_secs)),
+        )
+        .map(|_| ())
+    }
+
+    pub fn verify_server_cert(
+        server_names: &[String],
+        expected: Option<PeerId>,
+        end_entity: &[u8],
+        intermediates: &[Vec<u8>],
+        server_name: &str,
+        now_unix_secs: u64,
+    ) -> Result<(), rustls::Error> {
+        let end_entity = CertificateDer::from(end_entity.to_vec());
+        let intermediates = ders(intermediates);
+        let server_name = ServerName::try_from(server_name.to_owned())
+            .map_err(|_| rustls::Error::UnsupportedNameType)?;
+        let now = UnixTime::since_unix_epoch(std::time::Duration::from_secs(now_unix_secs));
+        let verifier = cert_verifier(server_names);
+        match expected {
+            None => verifier.verify_server_cert(&end_entity, &intermediates, &server_name, &[], now),
+            Some(peer_id) => ExpectedCertVerifier(verifier, peer_id).verify_server_cert(
+                &end_entity,
+                &intermediates,
+                &server_name,
+                &[],
+                now,
+            ),
+        }
+        .map(|_| ())
+    }
+
+    /// `signature_scheme` and `signature` are encoded as the TLS `DigitallySigned` struct.
+    pub fn verify_tls13_signature(
+        which: Verifier,
+        message: &[u8],
+        cert: &[u8],
+        signature_scheme: u16,
+        signature: &[u8],
+    ) -> Result<(), rustls::Error> {
+        use rustls::internal::msgs::codec::{Codec, Reader};
+
+        let mut encoded = Vec::with_capacity(4 + signature.len());
+        encoded.extend_from_slice(&signature_scheme.to_be_bytes());
+        encoded.extend_from_slice(&(signature.len() as u16).to_be_bytes());
+        encoded.extend_from_slice(signature);
+        let dss = rustls::DigitallySignedStruct::read(&mut Reader::init(&encoded))
+            .map_err(rustls::Error::InvalidMessage)?;
+        let cert = CertificateDer::from(cert.to_vec());
+        let verifier = cert_verifier(&[]);
+        match which {
+            Verifier::Client => {
+                ClientCertVerifier::verify_tls13_signature(&verifier, message, &cert, &dss)
+            }
+            Verifier::Server => {
+                ServerCertVerifier::verify_tls13_signature(&verifier, message, &cert, &dss)
+            }
+            Verifier::ExpectedServer(peer_id) => {
+                ExpectedCertVerifier(verifier, peer_id).verify_tls13_signature(message, &cert, &dss)
+            }
+        }
+        .map(|_| ())
+    }
+
+    pub fn supported_verify_schemes(which: Verifier) -> Vec<rustls::SignatureScheme> {
+        let verifier = cert_verifier(&[]);
+        match which {
+            Verifier::Client => ClientCertVerifier::supported_verify_schemes(&verifier),
+            Verifier::Server => ServerCertVerifier::supported_verify_schemes(&verifier),
+            Verifier::ExpectedServer(peer_id) => {
+                ExpectedCertVerifier(verifier, peer_id).supported_verify_schemes()
+            }
+        }
+    }
+
+    /// (offer_client_auth, client_auth_mandatory)
+    pub fn client_auth_policy() -> (bool, bool) {
+        let verifier = cert_verifier(&[]);
+        (
+            verifier.offer_client_auth(),
+            verifier.client_auth_mandatory(),
+        )
+    }
+
+    pub fn peer_id_from_certificate(certificate: &[u8]) -> Result<PeerId, rustls::Error> {
+        super::peer_id_from_certificate(&CertificateDer::from(certificate.to_vec()))
+    }
+}
